@@ -44,7 +44,15 @@ RULE = ("tebd cases: random tree (1-6 nodes, physical dimensions from {1,2,3}, s
         "the thorough tier); swap cases: every dimension 0..7 (0..12 thorough). non-trivial = distinct "
         "tebd case with a two-site operator whose first-named site is the child, or a SWAP, or mixed "
         "dimensions with a two-site gate; legs case with child-first call, further neighbours or a number "
-        "of open legs other than 1+1; swap case with d >= 2")
+        "of open legs other than 1+1; swap case with d >= 2. "
+        "input-space audit axes (tebd): histories after the regular steps (set_num_time_steps_constant_final_time, "
+        "set_num_time_steps, reset_to_initial_state, run(), further steps; vector and exponents judged at the step "
+        "size in force), from_lists with the splitting omitted / bare int entries / swap arguments omitted, "
+        "TrotterStep with both swap arguments omitted, empty splittings, TEBD built with svd_parameters None / omitted "
+        "and with a config, exponentiate_splitting(dim=...) on equal-dimension systems, state element types real / "
+        "int64 / complex64 / read-only views, real and integer operator matrices, NumPy factors, magnitudes 1e-8..1e+8 "
+        "(spread or on one tensor), canonical initial states, identifiers that are prefixes of each other or contain "
+        "'contr'; swap_gate() with its default")
 PARTIAL = [
     "value-level equality of the new state with the product of dense gates is decided per input by the "
     "dense oracle (the Lean theorems cover the list order of the operators, the SWAP index rule, the "
@@ -216,11 +224,23 @@ def gen_tebd_case(rng: random.Random, trunc: bool) -> Dict[str, Any]:
     return case
 
 
+PREFIX_NAMES = ["s1", "s10", "s11", "s100", "s101", "s110", "contr1", "s1contr"]
+SINGLE_TOL = 2e-4
+
+
 def _names(case) -> Dict[int, str]:
+    if case.get("names") == "prefix":       # identifiers that are prefixes of each other / contain the temporary id
+        return {i: PREFIX_NAMES[case["perm"][i]] for i in range(len(case["par"]))}
     return {i: f"s{case['perm'][i]}" for i in range(len(case["par"]))}
 
 
-def _matrix(nprng, d: int, herm: bool) -> np.ndarray:
+def _matrix(nprng, d: int, herm: bool, op_dtype: Optional[str] = None) -> np.ndarray:
+    if op_dtype == "int":                   # integer matrices (int64), symmetric when `herm`
+        m = nprng.integers(-2, 3, size=(d, d))
+        return (m + m.T) if herm else m
+    if op_dtype == "real":                  # real float64 matrices
+        m = nprng.standard_normal((d, d))
+        return (m + m.T) / 2 if herm else 0.4 * m
     if herm:
         return gen.rand_hermitian(nprng, d)
     return 0.4 * gen.rand_tensor(nprng, (d, d))
@@ -239,12 +259,30 @@ def build_tebd(case):
     nprng = np.random.default_rng(case["tseed"])
     bond = {(par[i], i): case["bond"][i] for i in range(1, n)}
     open_dims = {i: ([phys[i]] if phys[i] > 0 else []) for i in range(n)}
+    sdt = case.get("dtype", "c128")
     ttns, _canon, _att, _ = gen.build_network(TreeTensorNetworkState, par, bond, open_dims, rng, nprng,
-                                              names=names)
+                                              names=names, complex_=sdt not in ("real", "int"),
+                                              small_int=sdt == "int")
+    if sdt in ("int", "single", "view"):
+        from harness.props.c04 import _convert
+        _convert(ttns, sdt)
+    if case.get("gauge"):
+        # an initial state that is already canonical (centre recorded, child orders permuted by canonical_form)
+        ttns.canonical_form(rng.choice(sorted(ttns.nodes)))
+    if case.get("mag"):
+        # the magnitude sits on the recorded centre / on one random tensor (then the local singular values carry it
+        # in full) or is spread evenly over all tensors
+        c = ttns.orthogonality_center_id
+        if c is None and case.get("mag_one"):
+            c = rng.choice(sorted(ttns.nodes))
+        f = 10.0 ** (case["mag"] / (1 if c is not None else n))
+        for nid in ([c] if c is not None else list(ttns.nodes)):
+            t = np.asarray(ttns.tensors[nid])
+            ttns.replace_tensor(nid, (t * f).astype(t.dtype if t.dtype.kind != "i" else float))
     tp_objs, tp_mats = [], []
     for tp in case["tps"]:
         mrng = np.random.default_rng(tp["mseed"])
-        mats = [_matrix(mrng, phys[s], tp["herm"]) for s in tp["sites"]]
+        mats = [_matrix(mrng, phys[s], tp["herm"], case.get("op_dtype")) for s in tp["sites"]]
         tp_mats.append(mats)
         tp_objs.append(TensorProduct({names[s]: m for s, m in zip(tp["sites"], mats)}))
     base = (lambda x: list(x)) if case.get("plain") else SWAPlist      # plain lists: see F-C08a
@@ -254,12 +292,33 @@ def build_tebd(case):
         mk = base
     before = [mk([(names[a], names[b]) for a, b in tp["before"]]) for tp in case["tps"]]
     after = [mk([(names[a], names[b]) for a, b in tp["after"]]) for tp in case["tps"]]
+    def fac(f):                             # factor handed over as Python number or NumPy scalar
+        return np.float64(f) if case.get("np_factor") else f
     if case["via"] == "from_lists":
-        trotter = TrotterSplitting.from_lists(tp_objs, splitting=[tuple(s) for s in case["splitting"]],
+        trotter = TrotterSplitting.from_lists(tp_objs, splitting=[(s[0], fac(s[1])) for s in case["splitting"]],
                                               swaps_before=before, swaps_after=after)
+    elif case["via"] == "from_lists_forms":
+        # the other documented spellings of from_lists: splitting omitted (= every product once, in list order,
+        # factor 1), bare int entries (factor 1), swap lists omitted (None) when there is no swap at all
+        kw = {}
+        ident = [[i, 1] for i in range(len(tp_objs))]
+        if [list(x) for x in case["splitting"]] != ident or case.get("fl_explicit"):
+            kw["splitting"] = [(s[0] if s[1] == 1 and not isinstance(s[1], float) else (s[0], fac(s[1])))
+                               for s in case["splitting"]]
+        if any(tp["before"] for tp in case["tps"]) or case.get("fl_explicit"):
+            kw["swaps_before"] = before
+        if any(tp["after"] for tp in case["tps"]) or case.get("fl_explicit"):
+            kw["swaps_after"] = after
+        trotter = TrotterSplitting.from_lists(tp_objs, **kw)
+    elif case["via"] == "empty":
+        trotter = [TrotterSplitting(), TrotterSplitting(None), TrotterSplitting([]),
+                   TrotterSplitting.from_lists([])][case.get("empty_form", 0)]
     else:
-        trotter = TrotterSplitting([TrotterStep(tp_objs[i], f, swaps_before=before[i], swaps_after=after[i])
-                                    for i, f in case["splitting"]])
+        def step(i, f):
+            if not case["tps"][i]["before"] and not case["tps"][i]["after"] and case.get("step_defaults"):
+                return TrotterStep(tp_objs[i], fac(f))          # both swap arguments omitted
+            return TrotterStep(tp_objs[i], fac(f), swaps_before=before[i], swaps_after=after[i])
+        trotter = TrotterSplitting([step(i, f) for i, f in case["splitting"]])
     expected = []
     uid = 0
     for pos, (i, f) in enumerate(case["splitting"]):
@@ -383,30 +442,59 @@ def _case_tebd(ctx, case, model_out: Optional[List[str]] = None):
                                                   ("mixed", mixed), ("trunc", svd is not None),
                                                   ("two", bool(two))) if v) or "single-site only")
     ctx.tally("steps", steps)
+    ctx.tally("splitting_built_via", case["via"])
+    ctx.tally("state_element_type", case.get("dtype", "c128"))
+    ctx.tally("operator_element_type", case.get("op_dtype", "complex"))
+    ctx.tally("magnitude_exponent", case.get("mag", 0))
+    ctx.tally("initial_state", "canonical (centre recorded)" if ttns.orthogonality_center_id is not None else "no centre")
+    ctx.tally("identifier_scheme", case.get("names", "default"))
+    ctx.tally("tebd_constructor", case.get("ctor", "svd_parameters given"))
     ctx.sample(case, 3)
 
     if model_out is None:
         model_out = ctx.lean.batch(tebd_model_lines(case, expected, ttns, names))
 
     # ---- dense gates of the oracle
-    try:
+    def set_gates(step_size):
         for e in expected:
             if e["kind"] == "gate":
-                e["small"] = small_gate(ctx, e["mats"], e["herm"], -1j * e["f"] * dt)
+                e["small"] = small_gate(ctx, e["mats"], e["herm"], -1j * e["f"] * step_size)
             else:
                 e["small"] = swap_tensor(e["d"]).reshape(e["d"] ** 2, e["d"] ** 2)
+    try:
+        set_gates(dt)
     except _OracleInternal as ex:
         ctx.boundary_skipped += 1
         ctx.tally("skipped", str(ex)[:40])
         return
 
-    v0 = dense.ttns_vector(ttns, order)
+    tol = SINGLE_TOL if case.get("dtype") == "single" else TOL
+
+    def close(a, b):
+        """|a - b| within the tolerance, relative to |b| (with the historical floor 1 for O(1) data only)."""
+        nb = float(np.linalg.norm(b))
+        return bool(np.linalg.norm(a - b) <= tol * (nb if case.get("mag") else max(1.0, nb)))
+
+    v0 = np.array(dense.ttns_vector(ttns, order))
     struct0 = dense.structure(ttns)
     bonds0 = _bond_dims(ttns)
     with warnings.catch_warnings():
         warnings.simplefilter("ignore")
         try:
-            algo = algos.make_algo("tebd", ttns, None, dt, steps * dt, [], svd=svd or NOTRUNC, trotter=trotter)
+            ctor = case.get("ctor")
+            if ctor is None:
+                algo = algos.make_algo("tebd", ttns, None, dt, steps * dt, [], svd=svd or NOTRUNC, trotter=trotter)
+            else:
+                # TEBD constructed directly: svd_parameters omitted (documented default SVDParameters(): cut-offs
+                # 1e-15, at most 100) and / or the optional config (bond dimensions recorded during run())
+                from pytreenet.time_evolution.tebd import TEBD
+                from pytreenet.time_evolution.ttn_time_evolution import TTNTimeEvolutionConfig
+                kw = {}
+                if "config" in ctor:
+                    kw["config"] = TTNTimeEvolutionConfig(record_bond_dim=True)
+                if "svd_none" in ctor:
+                    kw["svd_parameters"] = None
+                algo = TEBD(ttns, trotter, dt, steps * dt, [], **kw)
         except Exception as e:                  # noqa: BLE001
             if case.get("plain") and isinstance(e, AttributeError) and "into_operators" in str(e):
                 _report_plain(ctx, case, e)
@@ -485,7 +573,7 @@ def _case_tebd(ctx, case, model_out: Optional[List[str]] = None):
                         vec = big[j] @ vec
                 got = dense.ttns_vector(state, order)
                 err = np.linalg.norm(got - vec)
-                if not err <= TOL * max(1.0, np.linalg.norm(vec)):
+                if not close(got, vec):
                     ctx.oracle_fail(case, f"state after step {k} differs from the ordered product of the dense "
                                           f"gates applied to the old state: |diff| = {err:.3g} "
                                           f"(|ref| = {np.linalg.norm(vec):.3g}); operators "
@@ -516,14 +604,135 @@ def _case_tebd(ctx, case, model_out: Optional[List[str]] = None):
                     try:
                         mvec = eval_record(record, expected, steps, v0, order, dims, num)
                         got = dense.ttns_vector(algo.state, order)
-                        if not np.linalg.norm(mvec - got) <= TOL * max(1.0, np.linalg.norm(mvec)):
+                        if not close(got, mvec):
                             ctx.corr_fail(case, f"the model's binding record of {steps} step(s) does not reproduce the "
                                                 f"implementation's state (|diff| = {np.linalg.norm(mvec - got):.3g})")
                     except (ValueError, KeyError) as ex:
                         ctx.corr_fail(case, f"model binding record unreadable: {ex}")
+        # ---- the documented `dim` argument of exponentiate_splitting / into_operators / to_tensor (never used by
+        #      TEBD itself): with one common physical dimension it must give the same operators
+        sited_dims = {d for d in case["phys"]}
+        if len(sited_dims) == 1 and 0 not in sited_dims and expected:
+            d = sited_dims.pop()
+            for form in ("dim", "dim+ttn"):
+                ctx.tally("exponentiate_splitting_form", form)
+                try:
+                    ops2 = (trotter.exponentiate_splitting(dt, dim=d) if form == "dim" else
+                            trotter.exponentiate_splitting(dt, ttns, d))
+                    bad = None
+                    if len(ops2) != len(expected):
+                        bad = f"{len(ops2)} operators, expected {len(expected)}"
+                    else:
+                        set_gates(dt)
+                        for k, (op, e) in enumerate(zip(ops2, expected)):
+                            arr = np.asarray(op.operator)
+                            ds = [d] * len(e["sites"])
+                            if list(op.node_identifiers) != e["sites"] or arr.shape != tuple(ds + ds):
+                                bad = f"operator {k}: sites {list(op.node_identifiers)} shape {arr.shape}"
+                                break
+                            dd = d ** len(ds)
+                            if np.linalg.norm(arr.reshape(dd, dd) - e["small"]) > 1e-10 * max(1.0, np.linalg.norm(e["small"])):
+                                bad = f"operator {k} ({e['kind']} on {e['sites']}): value differs"
+                                break
+                    if bad:
+                        ctx.oracle_fail(case, f"exponentiate_splitting({form} = {d}): {bad}")
+                except _OracleInternal:
+                    pass
+                except Exception as e:          # noqa: BLE001
+                    ctx.oracle_fail(case, f"exponentiate_splitting({form} = {d}) raised {type(e).__name__}: {str(e)[:160]}")
+        # ---- histories: public setters / reset / run() interleaved with further steps (truncation off only)
+        if case.get("hist") and svd is None:
+            if _history(ctx, case, algo, expected, set_gates, close, v0, vec, struct0, order, dims, dt, steps):
+                return
         # caller's object untouched (the algorithm works on its own copy)
         if not np.array_equal(dense.ttns_vector(ttns, order), v0):
             ctx.oracle_fail(case, "the initial state object handed to TEBD was modified")
+
+
+def _history(ctx, case, algo, expected, set_gates, close, v0, vec, struct0, order, dims, dt, steps) -> bool:
+    """Operations of case['hist'] after the regular steps; the state vector is compared after every operation with the
+    ordered product of dense gates at the step size IN FORCE.  Returns True when a failure was reported.
+      ["retime", m]  set_num_time_steps_constant_final_time(m): step size becomes final_time / m
+      ["setn", n]    set_num_time_steps(n): final time becomes n * step size, the step size stays
+      ["reset"]      reset_to_initial_state()
+      ["step"]       run_one_time_step()
+      ["run"]        run(pgbar=False): num_time_steps further steps from the current state"""
+    dt_cur, t_final = dt, steps * dt
+    big: Dict[int, np.ndarray] = {}
+
+    def one_step(v):
+        for j, e in enumerate(expected):
+            if e["kind"] == "swap":
+                v = swap_vector(v, order, dims, e["sites"][0], e["sites"][1])
+            else:
+                if j not in big:
+                    big[j] = embed(order, dims, e["sites"], e["small"])
+                v = big[j] @ v
+        return v
+    done = []
+    for op in case["hist"]:
+        if op[0] not in ("retime", "setn", "reset", "step", "run"):
+            raise ValueError(op)
+    for op in case["hist"]:
+        kind = op[0]
+        ctx.tally("history_op", kind)
+        done.append(op)
+        try:
+            if kind == "retime":
+                algo.set_num_time_steps_constant_final_time(op[1])
+                dt_cur = t_final / op[1]
+                try:
+                    set_gates(dt_cur)
+                except _OracleInternal:
+                    ctx.boundary_skipped += 1
+                    return False
+                big.clear()
+                exps = algo.exponents
+                for k, (o, e) in enumerate(zip(exps, expected)):
+                    arr = np.asarray(o.operator)
+                    dd = e["small"].shape[0]
+                    if arr.size != dd * dd or np.linalg.norm(arr.reshape(dd, dd) - e["small"]) > \
+                            1e-10 * max(1.0, np.linalg.norm(e["small"])):
+                        ctx.oracle_fail(case, f"history {done}: after set_num_time_steps_constant_final_time({op[1]}) "
+                                              f"exponent {k} ({e['kind']} on {e['sites']}) is not the gate of the new "
+                                              f"step size {dt_cur:.6g}")
+                        return True
+                if len(exps) != len(expected):
+                    ctx.oracle_fail(case, f"history {done}: {len(exps)} exponents after the setter, expected {len(expected)}")
+                    return True
+                continue
+            if kind == "setn":
+                algo.set_num_time_steps(op[1])
+                t_final = op[1] * dt_cur
+                continue
+            if kind == "reset":
+                algo.reset_to_initial_state()
+                vec = v0
+            elif kind == "step":
+                algo.run_one_time_step()
+                vec = one_step(vec)
+            else:       # run
+                nrun = int(algo.num_time_steps)        # C18 judges this number; here: that many steps are applied
+                if nrun > 6:
+                    continue
+                algo.run(pgbar=False)
+                for _ in range(nrun):
+                    vec = one_step(vec)
+        except Exception as e:                  # noqa: BLE001
+            ctx.oracle_fail(case, f"history {done}: {kind} raised {type(e).__name__}: {str(e)[:160]}")
+            return True
+        state = algo.state
+        wf = dense.well_formed(state)
+        if wf or dense.structure(state) != struct0:
+            ctx.oracle_fail(case, f"history {done}: state not well formed / identifiers or relations changed: {wf[:2]}")
+            return True
+        got = dense.ttns_vector(state, order)
+        if not close(got, vec):
+            ctx.oracle_fail(case, f"history {done}: state differs from the ordered product of the dense gates at step "
+                                  f"size {dt_cur:.6g} applied to the previous state: |diff| = "
+                                  f"{np.linalg.norm(got - vec):.3g} (|ref| = {np.linalg.norm(vec):.3g})")
+            return True
+    return False
 
 
 FINDING_PLAIN = "F-C08a"
@@ -821,10 +1030,10 @@ def _case_swap(ctx, case, model_out: Optional[str] = None):
     d = case["d"]
     if model_out is None:
         model_out = ctx.lean.batch([f"C08 swap {d}"])[0]
-    ctx.count(("swap", d), nontrivial=d >= 2, corr=True)
-    ctx.tally("swap_d", d)
+    ctx.count(("swap", d, bool(case.get("default"))), nontrivial=d >= 2, corr=True)
+    ctx.tally("swap_d", "default argument" if case.get("default") else d)
     try:
-        mat = swap_gate(d)
+        mat = swap_gate() if case.get("default") else swap_gate(d)
     except Exception as e:                      # noqa: BLE001
         impl = "error"
         mat = None
@@ -873,8 +1082,75 @@ def all_legs_cases(rng: random.Random) -> List[Dict[str, Any]]:
     return out
 
 
+def _audit_axes(case, arng):
+    """Input-space audit axes of a tebd case, drawn from a separate generator stream."""
+    n = len(case["par"])
+    trunc = case["svd"] is not None
+    if arng.random() < 0.22:
+        case["dtype"] = arng.choice(["real", "real", "int", "single", "view"])
+    if arng.random() < 0.15:
+        case["op_dtype"] = arng.choice(["real", "int"])
+    if arng.random() < 0.15:
+        case["gauge"] = 1
+    if not trunc and case.get("dtype") != "int" and arng.random() < 0.15:
+        case["mag"] = arng.choice([8, 6, -6, -8])
+        case["mag_one"] = arng.randint(0, 1)
+    if arng.random() < 0.2 and n <= len(PREFIX_NAMES):
+        case["names"] = "prefix"
+    if arng.random() < 0.1:
+        case["np_factor"] = 1
+    if case["via"] == "steps" and arng.random() < 0.3:
+        case["step_defaults"] = 1
+    if not trunc and arng.random() < 0.12 and not case.get("mag"):
+        # svd_parameters passed as None / omitted altogether (both: the documented default SVDParameters()), with or
+        # without the optional config
+        case["ctor"] = arng.choice(["svd_none", "svd_none+config", "svd_omitted+config", "svd_omitted"])
+    if not trunc and arng.random() < 0.3:
+        hist = []
+        for _ in range(arng.randint(1, 4)):
+            k = arng.choice(["retime", "retime", "step", "step", "reset", "setn", "run"])
+            hist.append([k, arng.randint(1, 4)] if k in ("retime", "setn") else [k])
+        if hist[-1][0] in ("retime", "setn"):
+            hist.append(["step"])
+        case["hist"] = hist
+
+
+def gen_audit_forms(arng) -> List[Dict[str, Any]]:
+    """Dedicated cases for the spellings the random generator cannot hit by chance: from_lists with the splitting
+    omitted / bare int entries / swap lists omitted, and empty splittings."""
+    out = []
+    while len(out) < 1:
+        c = gen_tebd_case(arng, trunc=False)
+        if not c["tps"]:
+            continue
+        c["via"] = "from_lists_forms"
+        r = arng.random()
+        if r < 0.5:                         # every product once, in list order, factor 1: `splitting` omitted
+            c["splitting"] = [[i, 1] for i in range(len(c["tps"]))]
+            if arng.random() < 0.3:
+                c["fl_explicit"] = 1
+        else:                               # some entries with factor 1 -> bare ints
+            c["splitting"] = [[i, (1 if arng.random() < 0.6 else f)] for i, f in c["splitting"]]
+        if arng.random() < 0.5:
+            for tp in c["tps"]:
+                tp["before"], tp["after"] = [], []
+        c.pop("plain", None)
+        c.pop("none_empty", None)
+        out.append(c)
+    return out
+
+
+def gen_empty_case(arng) -> Dict[str, Any]:
+    c = gen_tebd_case(arng, trunc=False)
+    c["tps"], c["splitting"], c["via"], c["empty_form"] = [], [], "empty", arng.randrange(4)
+    c.pop("plain", None)
+    c.pop("none_empty", None)
+    return c
+
+
 def gen_cases(ctx) -> List[Dict[str, Any]]:
     rng = ctx.rng
+    arng = ctx.subrng("audit")
     cases: List[Dict[str, Any]] = []
     for d in range(0, ctx.n(8, 13) if ctx.scale == 1 else 16):
         cases.append({"kind": "swap", "d": d})
@@ -884,10 +1160,21 @@ def gen_cases(ctx) -> List[Dict[str, Any]]:
     else:
         for _ in range(ctx.n(1000, 0)):
             cases.append(gen_legs_case(rng))
+    cases.append({"kind": "swap", "d": 2, "default": True})        # swap_gate() with its documented default
     for _ in range(ctx.n(2500, 30000)):
         cases.append(gen_tebd_case(rng, trunc=False))
+        _audit_axes(cases[-1], arng)
     for _ in range(ctx.n(500, 6000)):
         cases.append(gen_tebd_case(rng, trunc=True))
+        _audit_axes(cases[-1], arng)
+    for _ in range(ctx.n(150, 1500)):
+        c = gen_audit_forms(arng)[0]
+        _audit_axes(c, arng)
+        cases.append(c)
+    for _ in range(ctx.n(20, 100)):
+        c = gen_empty_case(arng)
+        _audit_axes(c, arng)
+        cases.append(c)
     # probe: swap lists as plain Python lists (see _report_plain)
     probes = 0
     while probes < 3:
